@@ -2,7 +2,7 @@
    Statements only; proofs are in Proofs/Xfr*.v, the model in Model/XfrM.v, the server-side
    specification (headers, versions, streams) in Proofs/XfrSpec.v. *)
 From DV Require Import Base.Prelude Model.XfrM Proofs.XfrSpec.
-From DV Require Proofs.XfrSafety Proofs.XfrBasic Proofs.XfrIxfr.
+From DV Require Proofs.XfrSafety Proofs.XfrBasic Proofs.XfrIxfr Proofs.XfrAxfr.
 
 (* Whatever is received (any messages, any records, any chunking, any fault), if the transfer ends
    with an exception - including the stream ending before the transfer is complete - the zone is
@@ -64,6 +64,25 @@ Theorem ixfr_converges : forall v0 chain z0 ws,
                /\ zeq z' (zone_of (last chain v0)).
 Proof. exact XfrIxfr.ixfr_converges. Qed.
 Print Assumptions ixfr_converges.
+
+(* AXFR: for every well-formed server zone, any client zone, and EVERY division of the stream into
+   messages - where dns.message merges the records of a message into RRsets (one_rr_per_rrset=False,
+   force_unique from the first SOA on) - the zone ends up equal to the server's. *)
+Theorem axfr_converges : forall v z0 ser ws,
+  version_wf v -> chunking tAXFR (axfr_stream v) ws ->
+  exists z' n, inbound_xfr z0 tAXFR ser false ws = (Done z', n) /\ zeq z' (zone_of v).
+Proof. exact XfrAxfr.axfr_converges. Qed.
+Print Assumptions axfr_converges.
+
+(* AXFR-style answer to an IXFR request (the second record is not an SOA): rollback, replacement
+   transaction, same result; the fallback may be triggered in a later message than the first. *)
+Theorem axfr_style_ixfr_converges : forall v z0 ser ws,
+  version_wf v -> v_rest v <> [] ->
+  v_serial v <> ser -> serial_lt (v_serial v) ser = false ->
+  chunking tIXFR (axfr_stream v) ws ->
+  exists z' n, inbound_xfr z0 tIXFR (Some ser) false ws = (Done z', n) /\ zeq z' (zone_of v).
+Proof. exact XfrAxfr.axfr_style_ixfr_converges. Qed.
+Print Assumptions axfr_style_ixfr_converges.
 
 (* UDP IXFR: the same stream in one datagram *)
 Theorem udp_ixfr : forall v0 chain z0 w,
@@ -130,4 +149,23 @@ Example ex_ixfr_runs :
   fst (inbound_xfr (zone_of ex_v0) tIXFR (Some (v_serial ex_v0)) false
          (map (fun r => mkW 0 [] [r]) (ixfr_stream ex_v0 [ex_v1; ex_v2])))
   = Done ((soakey, (600, [v_soa ex_v2])) :: [((2, 16, 0), (0, [9])); ((0, 2, 0), (3600, [2; 3]))]).
+Proof. vm_compute. reflexivity. Qed.
+
+Example ex_version_wf : version_wf ex_v2 /\ v_rest ex_v2 <> [] /\
+  chunking tAXFR (axfr_stream ex_v2)
+    [mkW 0 [(0, tAXFR)] [soa_rr ex_v2; mkRR 0 1 2 0 3600 2]; mkW 0 [] []; mkW 0 [] [mkRR 0 1 2 0 3600 3; mkRR 2 1 16 0 0 9; soa_rr ex_v2]].
+Proof.
+  split; [|split; [discriminate|]].
+  - split; [cbv; split; discriminate|]. split; repeat constructor; cbv; intuition (try discriminate; try lia).
+  - split; [|split; [reflexivity|discriminate]].
+    constructor; [split; [reflexivity|right; eexists; reflexivity]|].
+    constructor; [split; [reflexivity|left; reflexivity]|].
+    constructor; [split; [reflexivity|left; reflexivity]|constructor].
+Qed.
+
+(* grouping matters: in the last message the two NS records are one RRset when they arrive *)
+Example ex_axfr_runs :
+  inbound_xfr [((5, 1, 0), (1, [1]))] tAXFR None false
+    [mkW 0 [(0, tAXFR)] [soa_rr ex_v2]; mkW 0 [] [mkRR 0 1 2 0 3600 3; mkRR 2 1 16 0 0 9; mkRR 0 1 2 0 3600 2; soa_rr ex_v2]]
+  = (Done [(soakey, (600, [v_soa ex_v2])); ((2, 16, 0), (0, [9])); ((0, 2, 0), (3600, [2; 3]))], 2%nat).
 Proof. vm_compute. reflexivity. Qed.
